@@ -32,6 +32,11 @@ fn main() {
         std::process::exit(checks::c17::run(tier, &files));
     }
     #[cfg(all(feature = "sched", jmespath_rs_verif))]
+    if id == "C16-scenario" {
+        let tier = if args[2] == "thorough" { Tier::Thorough } else { Tier::Quick };
+        std::process::exit(checks::c16::scenario_child(tier, &args[3]));
+    }
+    #[cfg(all(feature = "sched", jmespath_rs_verif))]
     if id == "C16-first" {
         let ch: Vec<usize> = args[2].split(',').filter_map(|x| x.parse().ok()).collect();
         std::process::exit(checks::c16::first_use_child(ch));
